@@ -29,13 +29,15 @@ Half == M \div 2
 VARIABLES sroc, sseq,        \* sender
           joined, rroc, sl,  \* receiver: joined?, its roc, highest sequence number
           gap,               \* packets dropped in a row
-          npk, accepted, rejectedBad, beh, start, joinAt, tamperAt
-vars == <<sroc, sseq, joined, rroc, sl, gap, npk, accepted, rejectedBad, beh, start, joinAt, tamperAt>>
+          npk, accepted, rejectedBad, beh, start, joinAt, tamperAt,
+          priorHere, prior   \* an earlier receiver watched packets 0..prior-1 and left before the join
+vars == <<sroc, sseq, joined, rroc, sl, gap, npk, accepted, rejectedBad, beh, start, joinAt, tamperAt, priorHere, prior>>
 
 Init ==
   /\ start \in 0..(M - 1) /\ sseq = start /\ sroc = 0
   /\ joined = FALSE /\ rroc = 0 /\ sl = 0 /\ gap = 0 /\ npk = 0
   /\ accepted = 0 /\ rejectedBad = 0 /\ beh = "" /\ joinAt = 0 - 1 /\ tamperAt = 0 - 1
+  /\ priorHere \in BOOLEAN /\ prior = 0
 
 \* RFC 3711 3.3.1
 Guess(seq) ==
@@ -46,11 +48,16 @@ Guess(seq) ==
 AdvanceSender == /\ sseq' = (sseq + 1) % M
                  /\ sroc' = IF sseq = M - 1 THEN sroc + 1 ELSE sroc
 
-Export == ToJson([start |-> start, join |-> joinAt, n |-> npk', tamper |-> tamperAt'])
+Export == ToJson([start |-> start, join |-> joinAt, n |-> npk', tamper |-> tamperAt', prior |-> prior])
+
+\* the earlier receiver leaves (the sender's index does not depend on who listens: the
+\* packets written while nobody listens still advance it)
+PriorLeave == /\ priorHere /\ npk > 0 /\ priorHere' = FALSE /\ prior' = npk
+              /\ UNCHANGED <<sroc, sseq, joined, rroc, sl, gap, npk, accepted, rejectedBad, beh, start, joinAt, tamperAt>>
 
 \* the receiver joins: the key exchange hands it the sender's current ROC
-Join == /\ ~joined /\ joined' = TRUE /\ rroc' = sroc /\ sl' = sseq /\ joinAt' = npk
-        /\ UNCHANGED <<sroc, sseq, gap, npk, accepted, rejectedBad, beh, start, tamperAt>>
+Join == /\ ~joined /\ ~priorHere /\ joined' = TRUE /\ rroc' = sroc /\ sl' = sseq /\ joinAt' = npk
+        /\ UNCHANGED <<sroc, sseq, gap, npk, accepted, rejectedBad, beh, start, tamperAt, priorHere, prior>>
 
 Deliver(tamper) ==
   /\ npk < MaxPackets
@@ -70,14 +77,14 @@ Deliver(tamper) ==
              ELSE /\ rejectedBad' = rejectedBad + (IF tamper THEN 0 ELSE 1)
                   /\ UNCHANGED <<accepted, rroc, sl>>
   /\ beh' = Export
-  /\ UNCHANGED <<joined, start, joinAt>>
+  /\ UNCHANGED <<joined, start, joinAt, priorHere, prior>>
 
 Drop == /\ npk < MaxPackets /\ gap < MaxGap
         /\ AdvanceSender /\ npk' = npk + 1 /\ gap' = gap + 1
-        /\ UNCHANGED <<joined, rroc, sl, accepted, rejectedBad, start, joinAt, tamperAt>>
+        /\ UNCHANGED <<joined, rroc, sl, accepted, rejectedBad, start, joinAt, tamperAt, priorHere, prior>>
         /\ beh' = Export
 
-Next == Join \/ Deliver(FALSE) \/ Deliver(TRUE) \/ Drop
+Next == Join \/ PriorLeave \/ Deliver(FALSE) \/ Deliver(TRUE) \/ Drop
 Spec == Init /\ [][Next]_vars
 
 \* an in-sync receiver never refuses an authentic packet of its key
